@@ -82,8 +82,23 @@ def run(ctx):
     # fixed to the operation and the module's literal tables in scope, so that `op in (..)`, `op == ..`, `TABLE[op]` are decided.
     # The result does not depend on how the dispatch is written (if/elif ladder, lookup table, flags).
     from ..exprnorm import summarize_block as _sb
+    # (a table is taken for its literal only if it is a constant: bound once in the module, and - for a dict / list / set - read
+    # only in ways that cannot change it or hand it on; normalize's own test for mutable literals)
+    from ..normalize import _scope_binding_counts, _parents, _read_only_use, _has_mutable, _nested_mutable
+    _counts = _scope_binding_counts(s.tree.body)
+    _par = _parents(s.tree)
+    _globals_decl = {nm_ for x in ast.walk(s.tree) if isinstance(x, ast.Global) for nm_ in x.names}
+
+    def _constant_table(name, value):
+        if _counts.get(name) != 1 or name in _globals_decl:
+            return False
+        if not _has_mutable(value):
+            return True
+        uses = [x for x in ast.walk(s.tree) if isinstance(x, ast.Name) and x.id == name and isinstance(x.ctx, ast.Load)]
+        return not _nested_mutable(value) and all(_read_only_use(x, _par) for x in uses)
     tables = {st.targets[0].id: st.value for st in s.tree.body if isinstance(st, ast.Assign) and len(st.targets) == 1
-              and isinstance(st.targets[0], ast.Name) and isinstance(st.value, (ast.Dict, ast.Tuple, ast.List, ast.Set))}
+              and isinstance(st.targets[0], ast.Name) and isinstance(st.value, (ast.Dict, ast.Tuple, ast.List, ast.Set))
+              and _constant_table(st.targets[0].id, st.value)}
     op_var = [n_.id for n_ in ast.walk(loop[0].target) if isinstance(n_, ast.Name)][0]
     handled = {}
     has_else_raise = False
